@@ -132,7 +132,7 @@ Definition op_reads (L : limits) (op expected : cop) : Prop :=
   (exists d data, op = image_op d data /\ wf_image L d data = true /\ expected = image_op (scanned_dict d) data).
 
 (* the guard of the full inline-image statement: values may be arrays and dictionaries, nested
-   as deep as readValueDepth allows, without empty arrays *)
+   as deep as readValueDepth allows *)
 Fixpoint no_empty_arr (o : obj) : bool :=
   match o with
   | OArr l => negb (match l with [] => true | _ => false end) && forallb no_empty_arr l
@@ -148,7 +148,7 @@ Fixpoint vdepth (o : obj) : nat :=
   end.
 Definition wf_img_entry_full (L : limits) (kv : bytes * obj) : bool :=
   wf_img_key L (fst kv) && negb (is_null (cnorm (snd kv))) && wf_obj L 0 (snd kv) && no_ref (snd kv)
-  && no_empty_arr (snd kv) && Nat.leb (vdepth (snd kv)) 10.
+  && Nat.leb (vdepth (snd kv)) 10.
 Definition wf_image_full (L : limits) (d : list (bytes * obj)) (data : bytes) : bool :=
   nodup_keys d && forallb (wf_img_entry_full L) d && (N.of_nat (length d) <=? max_dict L)
   && (let sd := scanned_dict d in
